@@ -157,6 +157,94 @@ fn candidates(p: &Plan) -> Vec<Plan> {
     out
 }
 
+/// Value-level candidates for Work requests: the request bytes are a pure
+/// function of the parameters kept in `Expect::Work`, so smaller parameters
+/// can be tried by regenerating the bytes (only for requests written by one
+/// single `Send`).
+fn work_value_candidates(p: &Plan) -> Vec<Plan> {
+    use crate::scn::WorkReq;
+    let mut out = Vec::new();
+    for (ci, c) in p.conns.iter().enumerate() {
+        if c.kind == ConnKind::H2 {
+            continue;
+        }
+        for (k, rq) in c.reqs.iter().enumerate() {
+            let Expect::Work { steps, step_ms, panic_at, resp_bytes, body, op } = &rq.expect else { continue };
+            if *op == crate::api::work::OP_HEALTH {
+                continue;
+            }
+            // the one Send that carries this whole request
+            let sends: Vec<usize> = c
+                .steps
+                .iter()
+                .enumerate()
+                .filter(|(_, s)| matches!(s, Step::Send { completes: Some(j), .. } if *j == k))
+                .map(|(i, _)| i)
+                .collect();
+            if sends.len() != 1 {
+                continue;
+            }
+            let si = sends[0];
+            let Step::Send { data, .. } = &c.steps[si] else { continue };
+            let old = WorkReq {
+                nonce: rq.nonce,
+                steps: *steps,
+                step_ms: *step_ms,
+                panic_at: *panic_at,
+                resp_bytes: *resp_bytes,
+                body: body.map(|(n, _)| vec![0u8; n]),
+                chunked: None,
+            };
+            let close = data.0.windows(17).any(|w| w.eq_ignore_ascii_case(b"connection: close"));
+            let http10 = data.0.windows(10).any(|w| w == b" HTTP/1.0\r");
+            // only requests this generator can reproduce byte for byte
+            // (apart from the body content) are touched
+            if old.bytes_with(close, http10).len() != data.0.len() {
+                continue;
+            }
+            let mut tries: Vec<WorkReq> = Vec::new();
+            let mk = |steps: u32, step_ms: u64, resp: usize, blen: Option<usize>| WorkReq {
+                nonce: rq.nonce,
+                steps,
+                step_ms,
+                panic_at: (*panic_at).min(steps.max(1)),
+                resp_bytes: resp,
+                body: blen.map(|n| vec![b'x'; n]),
+                chunked: None,
+            };
+            let blen = body.map(|(n, _)| n);
+            if *steps > 1 {
+                tries.push(mk(1, *step_ms, *resp_bytes, blen));
+                tries.push(mk(steps / 2, *step_ms, *resp_bytes, blen));
+            }
+            if *step_ms > 1 {
+                tries.push(mk(*steps, step_ms / 2, *resp_bytes, blen));
+                let round = if *step_ms >= 1000 { step_ms / 1000 * 1000 } else if *step_ms >= 100 { step_ms / 100 * 100 } else { *step_ms };
+                if round != *step_ms {
+                    tries.push(mk(*steps, round, *resp_bytes, blen));
+                }
+            }
+            if *resp_bytes > 0 {
+                tries.push(mk(*steps, *step_ms, 0, blen));
+                tries.push(mk(*steps, *step_ms, resp_bytes / 2, blen));
+            }
+            if let Some(n) = blen {
+                if n > 0 {
+                    tries.push(mk(*steps, *step_ms, *resp_bytes, Some(0)));
+                    tries.push(mk(*steps, *step_ms, *resp_bytes, Some(n / 2)));
+                }
+            }
+            for w in tries {
+                let mut q = p.clone();
+                q.conns[ci].steps[si] = Step::Send { data: Blob(w.bytes_with(close, http10)), completes: Some(k) };
+                q.conns[ci].reqs[k] = w.plan();
+                out.push(q);
+            }
+        }
+    }
+    out
+}
+
 pub fn reproduces(scn: &dyn Scenario, plan: &Plan, rule: &str) -> Option<u64> {
     let out = run_plan(plan);
     let mut pr = Vec::new();
@@ -180,7 +268,9 @@ pub fn shrink(
     let mut fp = reproduces(scn, &cur, rule).unwrap_or(0);
     let mut runs = 1;
     'outer: loop {
-        for cand in candidates(&cur) {
+        let mut cands = candidates(&cur);
+        cands.extend(work_value_candidates(&cur));
+        for cand in cands {
             if runs >= budget {
                 break 'outer;
             }
